@@ -17,8 +17,8 @@ CLAIMED = {
          "tx reader, semaphore, watchers and the tree (tree reader / tree history under the scan and history harnesses) are stubs/recorders; mapped and injective indexes, seek/end/prefix bounds, pkg/database wrappers, the asynchronous indexer and restart are outside the claim", "DESIGN.md §4 C04"),
  "C06": ("the sequential mechanism behind conditional writes only: a write carrying preconditions (must exist / must not exist / not modified after tx) is admitted iff every precondition holds on the index state it is evaluated on, for every symbolic state and precondition list within the bounds; malformed preconditions are rejected",
          "linearizability of concurrent histories is NOT decided (no schedules); the index is a symbolic model behind stubs of the KeyIndex methods; wait gating of reads/writes not covered yet", "DESIGN.md §4 C06"),
- "C05": ("validation soundness of MVCC read-sets for point reads and prefix reads in a two-phase sequential model: if commit-time validation passes, every recorded read re-evaluated on the commit-time state yields what the transaction observed; no spurious conflict when nothing changed",
-         "the index under the snapshot is a symbolic 3-key model behind stubs of the Snapshot methods; range readers, prefix fingerprints, real interleavings and the locking discipline are outside the claim", "DESIGN.md §4 C05"),
+ "C05": ("validation soundness of MVCC read-sets for point reads, prefix reads and range scans (no phantoms) in a two-phase sequential model: if commit-time validation passes, every recorded read re-evaluated on the commit-time state yields what the transaction observed; no spurious conflict when nothing changed",
+         "the index under the snapshot is a symbolic 3-key model behind stubs of the Snapshot methods; prefix fingerprints, bounded or reset readers, real interleavings and the locking discipline are outside the claim", "DESIGN.md §4 C05"),
  "C13": ("the savepoint/rollback write-set kernel on a real store transaction: ROLLBACK TO SAVEPOINT must leave the pending write set and the bookkeeping as they were at the savepoint; Cancel closes the store transaction and refuses commit/writes; symbolic keys and values, up to 2+2 writes; read-your-own-writes of the store transaction through a plain and a mapped index (every read returns the last own write); DDL on a transaction's catalog clone never changes the engine's cached catalog",
          "SQLTx.Savepoint/RollbackToSavepoint/ReleaseSavepoint/Cancel over store.OngoingTx, OngoingTx.set/Get over recorder tree snapshots, Catalog.Clone + the DDL mutators; interleavings of sessions, statement atomicity end to end and pgwire are outside the claim; the write-set part is a recorded known finding (twin harness covers the rest)", "DESIGN.md §4 C13"),
  "C14": ("tombstone safety of value-log truncation: for every history of n transactions whose values landed in any value log at any offsets (out of id order, empty first values), and every cut point, TruncateUptoTx never discards beyond the first value of a transaction at or after the cut, and never discards with embedded values",
